@@ -265,7 +265,12 @@ def check(fb, ctx):
 
     # ---- 6. stack discipline: matches on stack.pop() have an InvalidStack default
     pops = [m2 for m2 in hirq.matches_in(hb["body"]) if hirq.calls(m2["scrut"], r"Vec::<T, A>::pop$")]
-    ctx.floor("matches on stack.pop()", len(pops), 2)
+    # `let (Some(a), Some(b)) = (stack.pop(), stack.pop()) else { return Err(InvalidStack) }` is the same discipline
+    let_else = [l_ for l_ in find_all(hb["body"], lambda z: z.get("k") == "let" and z.get("els") is not None and z.get("init") is not None and hirq.calls(z["init"], r"Vec::<T, A>::pop$"))]
+    for l_ in let_else:
+        ev2 = hirq.err_variant(l_["els"])
+        ctx.check(isinstance(ev2, str) and ev2.endswith("InvalidStack"), "STACK", f"let-else on stack.pop() @+{l_['ln'] - eb['line']}", f"STACK|let-else|{let_else.index(l_)}", "the `else` of a `let .. = stack.pop() else` must return Err(InvalidStack)", f"{eb['file']}:{l_['ln']}")
+    ctx.floor("matches on stack.pop()", len(pops) + len(let_else), 2)
     for m2 in pops:
         last = m2["arms"][-1]
         ev2 = hirq.err_variant(last["body"])
